@@ -332,6 +332,10 @@ impl<'a> LoweringManager<'a> {
           let call = if vec_returns_element {
             if return_type.is_int32() {
               wasm::InlineInstruction::DirectCall(mir::FunctionName::UNWRAP_I31, vec![call])
+            } else if matches!(return_type, lir::Type::AnyPointer) {
+              // Elements of an enum type that can be an i31 (e.g. Vec<Option<int>>) are kept as
+              // (ref eq), which is exactly what the runtime returns: there is no type to cast to.
+              call
             } else {
               wasm::InlineInstruction::Cast {
                 pointer_type: return_type.clone(),
